@@ -84,6 +84,8 @@ Definition args_unique_b (D : document) : bool :=
 Definition check_rule (S : schema) (W : wdoc) (acyc : bool) (r : N) (impl : list N) : N :=
   (* nested ifs, not &&: vm_compute evaluates both arguments of andb *)
   if r =? 13 then
+    (* the model must never run out of fuel (OutOfFuel is not a verdict) *)
+    if negb (run_complete S (erase W) true fuel) then 1 else
     if acyc then
       if negb (Bool.eqb (nonempty impl) (spec_violates r S W)) then 2
       else if negb (subset impl (L1_offending S (erase W) fuel)) then 2
